@@ -130,7 +130,11 @@ def requests_C08(docs, emitted, seed, tier):
                 v = idlgen.gen_item_value(items, it, r, r.randrange(0, 4))
                 w = idlgen.evolve(items, it, v, r)
                 want = idlgen.expected(items, it["name"], w)
+                hz = idlgen.hazards(items, it, w)
+                mark = "".join(f" hazard={h}" for h in sorted(hz))
                 for p in PROTOS:
+                    if hz and p == "ubin":
+                        continue      # the unchecked reader has no bounds checks: a misread value is undefined behaviour, not an answer
                     if r.random() < (0.5 if tier == "quick" else 1.0):
-                        out.append(f"gd {d['name']} {it['name']} {p} {idlgen.sexp(w)} => {want} C08")
+                        out.append(f"gd {d['name']} {it['name']} {p} {idlgen.sexp(w)}{mark} => {want} C08")
     return out
